@@ -4,6 +4,7 @@ import FinProto.Checks
 import FinProto.Gen
 import FinProto.Pinned
 import FinProto.Props.EncLemmas
+import FinProto.Props.NoSvcProofs
 set_option linter.defProp false
 namespace FinProto.Obl
 open FinProto
@@ -15,5 +16,9 @@ theorem C04_frames_recognised : Gen.types.filterMap (·.frame) = Pinned.types.fi
 def C04_repo := @frame_len_exact Gen.env
 /-- `frame_shape` at the regenerated environment -/
 def C04_shape := @frame_shape Gen.env
+
+/-- with no checksum service registered the appended bytes are still the ordinary frame (length patched to the body's
+    size), followed by the caller's checksum -/
+def C04_nosvc := @encFrameNS_frame Gen.env
 
 end FinProto.Obl
